@@ -114,7 +114,7 @@ class Scenario:
         return {'layer': self.layer, 'sched': self.sched, 'balance': self.balance, 'default_estimate': self.dflt,
                 'anchor': dt(self.anchor), 'clock': dt(self.clock),
                 'tasks': [[i, p, {k: dt(v) for k, v in a.items()}] for i, p, a in self.tasks],
-                'links': [list(x) for x in self.links], 'cals': self.cals,
+                'links': [list(x) for x in self.links], 'cals': [[k, v] for k, v in self.cals.items()],
                 'ext': [[i, {k: dt(v) for k, v in a.items()}] for i, a in self.ext],
                 'ext_links': [[list(a), list(b)] for a, b in self.ext_links]}
 
@@ -126,7 +126,8 @@ class Scenario:
             return v
         return Scenario(d['sched'], d['balance'], dt(d['anchor']),
                         [(i, p, {k: dt(v) for k, v in a.items()}) for i, p, a in d['tasks']],
-                        [tuple(x) for x in d['links']], d.get('cals') or {}, d.get('default_estimate', 0), dt(d.get('clock')),
+                        [tuple(x) for x in d['links']], ({k: v for k, v in d['cals']} if isinstance(d.get('cals'), list) else (d.get('cals') or {})),
+                        d.get('default_estimate', 0), dt(d.get('clock')),
                         [(i, {k: dt(v) for k, v in a.items()}) for i, a in d.get('ext', [])],
                         [(tuple(a), tuple(b)) for a, b in d.get('ext_links', [])], d.get('layer', ''))
 
